@@ -20,9 +20,13 @@ def check(ctx):
     g = ctx.gen
     ctx.lean_gate()
     dt = torch.float64
-    n = 40 if ctx.tier == "quick" else 600
+    n = 120 if ctx.tier == "quick" else 1200
     reqs, metas = [], []
     orig_backward = torch.Tensor.backward
+    from pfhedge.nn.modules.loss import OCE
+
+    def exp_utility(x):
+        return 1 - (-x).exp()
     for it in range(n):
         k = g.choice([0, 1, 2, 3, 7]) if ctx.tier == "thorough" else g.choice([0, 1, 2, 3])
         n_paths = g.choice([1, 4, 16])
@@ -34,9 +38,10 @@ def check(ctx):
         hedge_list = g.chance(0.3)
         optname = g.choice(["SGD", "Adam"])
         seed = g.randint(0, 10 ** 6)
-        crit_name = g.choice(["erm", "es"])
+        crit_name = g.choice(["erm", "es", "oce"])
+        wide = g.chance(0.5)      # optimiser instance over hedger.parameters() (model AND criterion parameters) instead of the model's only
         case = {"epochs": k, "n_paths": n_paths, "n_times": n_times, "with_init": with_init, "opt": optkind, "optimizer": optname,
-                "lazy": lazy, "validation": validation, "hedge_list": hedge_list, "seed": seed, "criterion": crit_name}
+                "lazy": lazy, "validation": validation, "hedge_list": hedge_list, "seed": seed, "criterion": crit_name, "wide_optimizer": wide and optkind == "instance"}
         events = []
 
         def build():
@@ -45,7 +50,7 @@ def check(ctx):
                 model = torch.nn.Sequential(torch.nn.LazyLinear(3, dtype=dt), torch.nn.ReLU(), torch.nn.Linear(3, 1, dtype=dt))
             else:
                 model = torch.nn.Sequential(torch.nn.Linear(2, 3, dtype=dt), torch.nn.ReLU(), torch.nn.Linear(3, 1, dtype=dt))
-            crit = nn.EntropicRiskMeasure() if crit_name == "erm" else nn.ExpectedShortfall(0.5)
+            crit = {"erm": lambda: nn.EntropicRiskMeasure(), "es": lambda: nn.ExpectedShortfall(0.5), "oce": lambda: OCE(exp_utility)}[crit_name]()
             return model, crit
 
         class LogCrit(torch.nn.Module):
@@ -110,7 +115,7 @@ def check(ctx):
                 d.simulate(n_paths=1)
                 hedger.compute_pl(d)
                 events.clear()
-            opt = LogOpt(hedger.model.parameters())
+            opt = LogOpt(hedger.parameters() if wide else hedger.model.parameters())
             events.clear()
         else:
             opt = g.choice([torch.nn.Linear, "adam", 3])
@@ -156,6 +161,37 @@ def check(ctx):
                 ctx.fail("fit did not return one validation loss per epoch", case, key="fit:history", detail=str(hist)[:100])
         elif hist is not None:
             ctx.fail("fit returned a history although validation is off", case, key="fit:history", detail=str(hist)[:100])
+        # the protocol read off the REAL event trace (independent of the model): the batch that is back-propagated is a fresh one of
+        # the requested size / initial state, processed in training mode with gradients on; every other loss evaluation
+        # (validation) runs in evaluation mode without gradients, n_times of them per epoch (accumulation across epochs is
+        # decided below by comparing the gradient present at each step with the single-batch gradient)
+        tr_loss = [i for i, e in enumerate(evs) if e[0] == "backward"]
+        bad = None
+        for bi in tr_loss:
+            if bi < 2 or evs[bi - 1][0] != "loss" or evs[bi - 2][0] != "simulate":
+                bad = ("a backward pass is not preceded by its own simulate + loss", bi)
+                break
+            sim, ls = evs[bi - 2], evs[bi - 1]
+            if not (ls[1] and ls[2] and sim[3] and sim[4]):
+                bad = ("a training batch was processed in evaluation mode or without gradients", bi)
+                break
+            if sim[1] != n_paths or sim[2] != with_init:
+                bad = ("a training batch was not simulated with the requested size / initial state", bi)
+                break
+        if bad is None:
+            val_losses = [i for i, e in enumerate(evs) if e[0] == "loss" and (i + 1 >= len(evs) or evs[i + 1][0] != "backward")]
+            for vi in val_losses:
+                if evs[vi][1] or evs[vi][2] or evs[vi - 1][0] != "simulate" or evs[vi - 1][3] or evs[vi - 1][4]:
+                    bad = ("a validation loss was computed in training mode or with gradients enabled", vi)
+                    break
+                if evs[vi - 1][1] != n_paths or evs[vi - 1][2] != with_init:
+                    bad = ("a validation batch was not simulated with the requested size / initial state", vi)
+                    break
+            if bad is None and len(val_losses) != (k * n_times if validation else 0):
+                bad = (f"expected {k * n_times if validation else 0} validation evaluations (k epochs x n_times), saw {len(val_losses)}", -1)
+        if bad is not None:
+            ctx.fail("fit departs from the documented protocol: " + bad[0], case | {"event_index": bad[1]}, key="fit:protocol-trace",
+                     detail={"events": evs[:60]})
         # reference loop under the same seed: parameters must agree bitwise
         events_ref = events
         events = []
@@ -169,7 +205,8 @@ def check(ctx):
             # was set and BEFORE constructing the optimiser: replay exactly that
             d2.simulate(n_paths=1)
             hedger2.compute_pl(d2)
-        ref_opt = base_opt(hedger2.model.parameters(), lr=0.01)
+        plist2 = list(hedger2.parameters()) if (wide and optkind == "instance") else list(hedger2.model.parameters())
+        ref_opt = base_opt(plist2, lr=0.01)
         hedge2 = [stock2] if hedge_list else None
         ref_grads = []
         for ep in range(k):
@@ -178,22 +215,22 @@ def check(ctx):
             d2.simulate(n_paths=n_paths, init_state=init_state)
             loss = crit2(hedger2.compute_portfolio(d2, hedge=hedge2), d2.payoff())
             loss.backward()
-            ref_grads.append([p.grad.detach().clone() for p in hedger2.model.parameters()])
+            ref_grads.append([None if p.grad is None else p.grad.detach().clone() for p in plist2])
             ref_opt.step()
             if validation:
                 hedger2.eval()
                 with torch.no_grad():
                     for _ in range(n_times):
                         d2.simulate(n_paths=n_paths, init_state=init_state)
-        p1 = [p.detach() for p in hedger.model.parameters()]
-        p2 = [p.detach() for p in hedger2.model.parameters()]
+        p1 = [p.detach() for p in hedger.parameters()]
+        p2 = [p.detach() for p in hedger2.parameters()]
         if len(p1) != len(p2) or any(a.shape != b.shape or not torch.equal(a, b) for a, b in zip(p1, p2)):
             ctx.fail("parameters after fit differ from an explicit simulate/loss/backward/step loop under the same seed", case,
                      key="fit:reference-loop", detail={"max_abs_diff": max(float((a - b).abs().max()) for a, b in zip(p1, p2)) if len(p1) == len(p2) else None})
         the_opt = opt if optkind == "instance" else None
         if the_opt is not None and len(the_opt.grads_at_step) == len(ref_grads):
             for ep, (ga, gb) in enumerate(zip(the_opt.grads_at_step, ref_grads)):
-                if any(x is None or not torch.equal(x, y) for x, y in zip(ga, gb)):
+                if len(ga) != len(gb) or any((x is None) != (y is None) or (x is not None and not torch.equal(x, y)) for x, y in zip(ga, gb)):
                     ctx.fail("the gradient applied at an optimiser step is not the gradient of that epoch's single batch (accumulation?)",
                              case | {"epoch": ep}, key="fit:gradient-per-step")
                     break
